@@ -1065,6 +1065,166 @@ func (w *bWorld) tpAttenuationEpisode() {
 	w.specBundle(bs[0].Header())
 }
 
+// partialDischargeEpisode: a PARTIAL failure inside one Discharge call.  Two or three permission
+// tokens each carry a third-party caveat for the same location (one token cannot carry two), so the
+// call has several tickets to work on; exactly one of them fails — the callback refuses it, or
+// returns caveats Add refuses (an attestation inside IfPresent), or its ticket is sealed under another
+// key, or is garbage, or opens to garbage — first, last or in the middle.  Discharge must return an
+// error and leave the bundle as it was (Len, Header, undischarged tickets, later Verify); when the
+// failure was the callback's, a second call with an agreeable callback then discharges them all.
+func (w *bWorld) partialDischargeEpisode() {
+	r, o := w.r, w.o
+	ctx := context.Background()
+	var bs []*bundle.Bundle
+	var ops, outs []string
+	defer func() {
+		if p := recover(); p != nil {
+			msg := strings.ReplaceAll(strings.SplitN(fmt.Sprint(p), "\n", 2)[0], " ", "_")
+			o.emit(fmt.Sprintf("(bundle.run (scope %s) %s %s %s %s)", bundleScope, w.sxKeys(), sxTrust(w.trusted), hs(w.permLoc), strings.Join(ops, " ")), "panic:"+msg)
+		}
+	}()
+	step := func(op, out string) {
+		ops = append(ops, op)
+		outs = append(outs, out+"~"+statesStr(bs))
+	}
+	tp := w.tps[0]
+	n := 2 + r.Intn(2)
+	fail := pick(r, []int{0, n - 1, r.Intn(n)})
+	mode := pick(r, []string{"refuse", "refuse", "badcavs", "badcavs", "otherkey", "garbage", "badplaintext"})
+	pos := "middle"
+	if fail == 0 {
+		pos = "first"
+	} else if fail == n-1 {
+		pos = "last"
+	}
+	o.count("partial.mode." + mode + "." + pos)
+	o.count(fmt.Sprintf("partial.tickets.%d", n))
+	kid := w.kids[0]
+	marker := func(i int) macaroon.Caveat { return &flyio.Organization{ID: uint64(10 + i), Mask: resset.ActionAll} }
+	var parts []string
+	for i := 0; i < n; i++ {
+		m, err := macaroon.New(kid, w.permLoc, w.keys[string(kid)])
+		if err != nil {
+			panic(err)
+		}
+		m.Add(&flyio.Organization{ID: 1, Mask: resset.ActionAll})
+		var c3 macaroon.Caveat
+		switch {
+		case i == fail && mode == "otherkey":
+			it, err := newTP(r.Bytes(32), tp.loc, marker(i))
+			if err != nil {
+				panic(err)
+			}
+			c3 = it.cav
+		case i == fail && mode == "garbage":
+			c3 = &macaroon.Caveat3P{Location: tp.loc, Ticket: r.Bytes(pick(r, []int{0, 5, 40}))}
+		case i == fail && mode == "badplaintext":
+			c3 = &macaroon.Caveat3P{Location: tp.loc, Ticket: aeadSeal(tp.ka, r.Bytes(12), pick(r, [][]byte{{0xc1}, {0x92, 0xc0}, {}}))}
+		default:
+			it, err := newTP(tp.ka, tp.loc, marker(i))
+			if err != nil {
+				panic(err)
+			}
+			c3 = it.cav
+		}
+		if err := m.Add(c3); err != nil {
+			panic(err)
+		}
+		parts = append(parts, b64tok(w.label(), mustEnc(m)))
+	}
+	if r.Chance(1, 3) {
+		parts = append(parts, pick(r, []string{"hello", "fo1_abc"}))
+	}
+	hdr := "FlyV1 " + strings.Join(parts, ",")
+	b, perr := bundle.ParseBundle(w.permLoc, hdr)
+	bs = append(bs, b)
+	e := "n"
+	if perr != nil {
+		e = "e"
+	}
+	step(fmt.Sprintf("(parse %s default)", hs(hdr)), "new0:"+e)
+
+	ro := resset.ActionRead
+	bad := auth.FlyioUserID(3)
+	refused := &resset.IfPresent{Ifs: macaroon.NewCaveatSet(&bad), Else: resset.ActionRead}
+	// the callback: a decision per ticket, keyed by the ticket's caveats
+	mkCb := func(failing bool) bCb {
+		type dec struct {
+			cavs []macaroon.Caveat
+			err  bool
+		}
+		decs := map[string]dec{}
+		var cases []string
+		for i := 0; i < n; i++ {
+			d := dec{cavs: []macaroon.Caveat{&ro}}
+			dsx := "(ok (c " + sxCav(&ro) + "))"
+			if failing && i == fail && mode == "refuse" {
+				d = dec{err: true}
+				dsx = "err"
+			}
+			if failing && i == fail && mode == "badcavs" {
+				d = dec{cavs: []macaroon.Caveat{&ro, refused}}
+				dsx = "(ok (c " + sxCav(&ro) + ") (c " + sxCav(refused) + "))"
+			}
+			key := sxCavs([]macaroon.Caveat{marker(i)})
+			decs[key] = d
+			cases = append(cases, "("+key+" "+dsx+")")
+		}
+		return bCb{func(tc []macaroon.Caveat) ([]macaroon.Caveat, error) {
+			d, ok := decs[sxCavs(tc)]
+			if !ok || d.err {
+				return nil, fmt.Errorf("refused")
+			}
+			return d.cavs, nil
+		}, "(bycavs " + strings.Join(cases, " ") + " err)"}
+	}
+	undischarged := func() {
+		ts := b.UndischargedTicketsForThirdParty(tp.loc)
+		p := make([]string, len(ts))
+		for x, t := range ts {
+			p[x] = hx(t)
+		}
+		step(fmt.Sprintf("(undischargedFor 0 %s)", hs(tp.loc)), "u:"+strings.Join(p, ","))
+	}
+	discharge := func(cb bCb) error {
+		before := b.Len()
+		err := b.Discharge(tp.loc, tp.ka, cb.f)
+		rs := ""
+		if err == nil {
+			ms := bundle.Map(b, func(t bundle.Token) bundle.Token { return t })
+			for _, t := range ms[before:] {
+				rs += " " + hx(t.(bundle.Macaroon).Nonce().Rnd)
+			}
+		}
+		o.count("partial.discharge." + flagStr(err))
+		step(fmt.Sprintf("(discharge 0 %s %s %s%s)", hs(tp.loc), hx(tp.ka), cb.sx, rs), flagStr(err))
+		return err
+	}
+	verify := func() {
+		cs, err := b.Verify(ctx, w.resolver())
+		o.count("partial.verify." + flagStr(err))
+		step("(verify 0)", setsStr(cs, err))
+	}
+	undischarged()
+	if r.Chance(1, 3) {
+		verify()
+	}
+	discharge(mkCb(true)) // one ticket fails: nothing may be appended
+	step("(len 0)", fmt.Sprint(b.Len()))
+	step("(header 0)", hs(b.Header()))
+	undischarged()
+	verify()
+	discharge(mkCb(false)) // succeeds iff the failure was the callback's
+	undischarged()
+	verify()
+	d := r.Dyn()
+	d.WF, d.NowSec, d.NowNsec, d.Org, d.Action = "", baseNow, 0, p64(1), resset.ActionRead
+	verr := b.Validate(d.As("org"))
+	step(fmt.Sprintf("(validate 0 %s)", d.Sx("org")), flagStr(verr))
+	o.emit(fmt.Sprintf("(bundle.run (scope %s) %s %s %s %s)", bundleScope, w.sxKeys(), sxTrust(w.trusted), hs(w.permLoc), strings.Join(ops, " ")),
+		strings.Join(outs, " | "))
+}
+
 // ---- flyio/bundle.go ----
 
 // flyioEpisode: a bundle parsed with flyio.ParseBundle(WithFilter) from tokens of the four Fly.io
@@ -1305,6 +1465,7 @@ func famBundle(r *Rng, o *Out, tier string) {
 			w.episode()
 		}
 		w.tpAttenuationEpisode()
+		w.partialDischargeEpisode()
 		flyioEpisode(r, o)
 	}
 }
